@@ -6,10 +6,11 @@
         resolve  : list of (s, e, kind, prog: list of (enter?, state), dest, raises)   kind 0 = internal, 1 = move
         models   : list of (m, initial state)
         keys     : list of (m, runner key)   — the identity for the code as it is (id(model)); default m
-        history  : list of ops: 0 <early: list of (m, e)>  |  1 m e
+        history  : list of ops: 0 <early: list of (m, e)>  |  1 m e  |  2 s v   (state.timeout := v)
       → `T <records> L <leaked> X <tie> C <(model, final state) …>`
-    c17mon <timeouts: list of (s, timeout)> <routes> <records>   → ok | reject
-      (the verified monitor `C17.accepts` on an observed trace)
+    c17mon <routes> <segments: list of (<timeouts: list of (s, timeout)> <records>)>   → ok | reject
+      (the verified monitor `C17.acceptsV` on an observed trace cut at the assignments to state.timeout;
+       one segment = `C17.accepts`)
     c17ctor <timeout> <on_timeout: 0 | 1 n>  → `ok t n` | `AttributeError`
 -/
 import Handlers.Basic
@@ -53,14 +54,17 @@ def resolveRow : P (Nat × Nat × Step) := do
   let d ← nat; let r ← bool
   pure (s, e, if k = 0 then .stay else .move prog d r)
 
-def op : P Op := do
+def op : P Timeout.OpV := do
   let k ← nat
   if k = 0 then do
     let early ← list (do let m ← nat; let e ← nat; pure (m, e))
-    pure (.tick early)
-  else do
+    pure (.op (.tick early))
+  else if k = 1 then do
     let m ← nat; let e ← nat
-    pure (.ev m e)
+    pure (.op (.ev m e))
+  else do
+    let s ← nat; let v ← nat
+    pure (.setT s v)
 
 def mkCfg (rows : List StateRow) (onExc async : Bool) (tbl : List (Nat × Nat × Step))
     (keys : List (Nat × Nat)) : Timeout.Cfg :=
@@ -82,16 +86,18 @@ def runCase : P String := do
   let keys ← list (do let m ← nat; let k ← nat; pure (m, k))
   let h ← list op
   let cur := fun m => ((models.find? (fun p => p.1 = m)).map (·.2)).getD 0
-  let st : Timeout.St := Timeout.run (mkCfg rows onExc async tbl keys) h (Timeout.St.init cur)
+  let st : Timeout.St := (Timeout.runV (mkCfg rows onExc async tbl keys) h (Timeout.St.init cur)).2
   let curs := models.flatMap fun p => [p.1, st.cur p.1]
   pure s!"T {joinNats (st.log.length :: st.log.flatMap encRec)} L {if st.leaked then 1 else 0} X {if st.tie then 1 else 0} C {joinNats curs}"
 
 def monCase : P String := do
-  let ts ← list (do let s ← nat; let t ← nat; pure (s, t))
   let routes ← bool
-  let recs ← list rec
-  let sp : TM.C17.Spec := { timeout := fun s => ((ts.find? (fun p => p.1 = s)).map (·.2)).getD 0, routes }
-  pure (if TM.C17.accepts sp recs then "ok" else "reject")
+  let segs ← list (do
+    let ts ← list (do let s ← nat; let t ← nat; pure (s, t))
+    let recs ← list rec
+    let sp : TM.C17.Spec := { timeout := fun s => ((ts.find? (fun p => p.1 = s)).map (·.2)).getD 0, routes }
+    pure (sp, recs))
+  pure (if TM.C17.acceptsV segs then "ok" else "reject")
 
 def ctorCase : P String := do
   let t ← nat
